@@ -7,12 +7,13 @@ CONSTANTS Weights = {1, 49, 50, 51, 100}
  PayCfgs <- McPayCfgs
  PaySenders <- McPaySenders
  PayFields = {"gasPrice", "gasLimit", "sigs", "amount", "gasPayer"}
+ GpFields = {"to", "amount", "gasPrice", "gasLimit", "data", "expiration", "chainID", "type", "toName", "message", "version", "sigs"}
  BoxCfgs <- McBoxCfgs
  Kinds = {"vote", "asset"}
  ReconfCfgs <- McReconfAll
- NewCfgs <- McNewCfgs
- Slices = {"sigs", "tamper", "payer", "junk", "box", "kinds", "reconf"}
+ NewCfgs <- McNewThorough
+ Slices = {"sigs", "tamper", "payer", "junk", "box", "kinds", "reconf", "gp", "stale"}
  Dev = {}
 VIEW View
-PROPERTIES EffectOnlyIfAuthorized CanonicalAccepted RepeatNeverHelps ForeignNeverHelps RemovalNeverHelps EncodingIrrelevant TamperFalsifies PayerBinds ThresholdExact Reconf ChangeCovered BoxBinds LabelIrrelevant
+PROPERTIES EffectOnlyIfAuthorized CanonicalAccepted RepeatNeverHelps ForeignNeverHelps RemovalNeverHelps EncodingIrrelevant TamperFalsifies GasPayerFieldBinds SchemeBinds PayerBinds ThresholdExact Reconf ChangeCovered BoxBinds LabelIrrelevant
 CHECK_DEADLOCK FALSE
